@@ -487,7 +487,8 @@ pub fn utf8_random(seed: u64, count: u64) {
 
 pub fn alloc_free(max: usize) {
     let mut n = 0u64;
-    let mut sizes: Vec<usize> = (1..=max).collect();
+    // size 0 included: the bundled JS runtime allocates and frees zero-length buffers for "" and []
+    let mut sizes: Vec<usize> = (0..=max).collect();
     sizes.extend_from_slice(&[255, 256, 1000, 4096]);
     for size in sizes {
         for align in [1usize, 2, 4, 8, 16, 32, 64] {
